@@ -6,7 +6,7 @@
     [*_refuted]: elements that report PE = 0 and are energy sources (known finding, DESIGN 7.17). *)
 From Coq Require Import ZArith Reals List.
 From Coquelicot Require Import Coquelicot.
-Require Import Num Vec C13_Model C12_Proofs.
+Require Import Num Vec C13_Model C13_Proofs C12_Proofs.
 Import ListNotations.
 Local Open Scope R_scope.
 
@@ -133,6 +133,27 @@ Theorem C12_mstop_power_balance_partial k d qlo qhi q u : 0 <= k -> 0 <= d -> ql
   /\ mstop_diss k d qlo qhi q u <= 0 /\ (d = 0 -> mstop_diss k d qlo qhi q u = 0).
 Proof. exact (mstop_power_balance_partial k d qlo qhi q u). Qed.
 Print Assumptions C12_mstop_power_balance_partial.
+
+Theorem C12_bushing_power_is_generalized_power_partial (X1 X2:Transform R) V1 V2 XB1F XB2M qr (f:C13_Model.Vec6) :
+  is_rot (fst X1) -> is_rot (fst XB1F) ->
+  let P := bush_F_of_f ROps X1 X2 XB1F XB2M qr f in
+  let qd := bush_qdot ROps X1 X2 V1 V2 XB1F XB2M qr in
+  sv_dot ROps (fst P) V1 + sv_dot ROps (snd P) V2 = v3_dot ROps (fst f) (fst qd) + v3_dot ROps (snd f) (snd qd).
+Proof. exact (bushing_power_is_generalized_power_partial X1 X2 V1 V2 XB1F XB2M qr f). Qed.
+Print Assumptions C12_bushing_power_is_generalized_power_partial.
+
+Theorem C12_bushing_power_balance_partial (X1 X2:Transform R) V1 V2 XB1F XB2M (k c:C13_Model.Vec6) qr :
+  is_rot (fst X1) -> is_rot (fst XB1F) ->
+  let q := bush_q ROps X1 X2 XB1F XB2M qr in
+  let qd := bush_qdot ROps X1 X2 V1 V2 XB1F XB2M qr in
+  let P := fst (bush_core ROps X1 X2 V1 V2 XB1F XB2M k c qr) in
+  let diss := - (v3_dot ROps (v3_mul ROps (fst c) (fst qd)) (fst qd) + v3_dot ROps (v3_mul ROps (snd c) (snd qd)) (snd qd)) in
+  sv_dot ROps (fst P) V1 + sv_dot ROps (snd P) V2 =
+    - (v3_dot ROps (v3_mul ROps (fst k) (fst q)) (fst qd) + v3_dot ROps (v3_mul ROps (snd k) (snd q)) (snd qd)) + diss
+  /\ ((0 <= v3_0 (fst c) /\ 0 <= v3_1 (fst c) /\ 0 <= v3_2 (fst c) /\ 0 <= v3_0 (snd c) /\ 0 <= v3_1 (snd c) /\ 0 <= v3_2 (snd c)) -> diss <= 0)
+  /\ (c = ((0,0,0),(0,0,0)) -> diss = 0).
+Proof. exact (bushing_power_balance_partial X1 X2 V1 V2 XB1F XB2M k c qr). Qed.
+Print Assumptions C12_bushing_power_balance_partial.
 
 Theorem C12_spring_hyp_satisfiable : 0 < v3_normSqr ROps (tp_r ROps (Xat O3) O3 (Xat (3,4,0)) O3).
 Proof. exact (@spring_hyp_satisfiable). Qed.
